@@ -11,6 +11,7 @@ pub mod c07;
 pub mod c08;
 pub mod c09;
 pub mod c10;
+pub mod c11;
 
 pub fn dispatch(args: &Args, rep: &mut Report) {
     match args.prop.as_str() {
@@ -24,6 +25,7 @@ pub fn dispatch(args: &Args, rep: &mut Report) {
         "C08" => c08::run(args, rep),
         "C09" => c09::run(args, rep),
         "C10" => c10::run(args, rep),
+        "C11" => c11::run(args, rep),
         p => {
             eprintln!("unknown property {p}");
             std::process::exit(2);
